@@ -989,7 +989,7 @@ func (c *Ctx) ruleNormalisers() {
 		pk := f.Pkg
 		type rep struct {
 			old, new string
-			pos       int
+			pos      int
 		}
 		var reps []rep
 		lit := func(e ast.Expr) (string, bool) {
